@@ -433,6 +433,8 @@ impl<VM: VMBinding> GCWorkScheduler<VM> {
             }
 
             let ordinal = worker.ordinal;
+            #[cfg(feature = "mmtk_verif")]
+            crate::verif::fp(crate::verif::FP_BEFORE_PARK);
             self.worker_monitor
                 .park_and_wait(ordinal, |goals| self.on_last_parked(worker, goals))?;
         }
@@ -515,6 +517,8 @@ impl<VM: VMBinding> GCWorkScheduler<VM> {
                 // We set the eBPF trace point here so that bpftrace scripts can start recording
                 // work packet events before the `ScheduleCollection` work packet starts.
                 probe!(mmtk, gc_start);
+                #[cfg(feature = "mmtk_verif")]
+                crate::verif::emit(crate::verif::EV_GC_START, worker.ordinal as u64, 0, 0, 0);
 
                 {
                     let mut gc_start_time = worker.mmtk.state.gc_start_time.borrow_mut();
@@ -629,6 +633,14 @@ impl<VM: VMBinding> GCWorkScheduler<VM> {
         let concurrent_work_scheduled = self.schedule_concurrent_packets();
         self.debug_assert_all_stw_buckets_closed();
 
+        #[cfg(feature = "mmtk_verif")]
+        crate::verif::emit(
+            crate::verif::EV_GC_END,
+            worker.ordinal as u64,
+            concurrent_work_scheduled as u64,
+            0,
+            0,
+        );
         // Set to NotInGC after everything, and right before resuming mutators.
         mmtk.set_gc_status(GcStatus::NotInGC);
         <VM as VMBinding>::VMCollection::resume_mutators(worker.tls);
@@ -653,6 +665,8 @@ impl<VM: VMBinding> GCWorkScheduler<VM> {
     }
 
     pub fn notify_mutators_paused(&self, mmtk: &'static MMTK<VM>) {
+        #[cfg(feature = "mmtk_verif")]
+        crate::verif::emit(crate::verif::EV_MUTATORS_PAUSED, 0, 0, 0, 0);
         mmtk.gc_trigger.clear_request();
         let first_stw_bucket = &self.work_buckets[WorkBucketStage::FIRST_STW_STAGE];
         debug_assert!(!first_stw_bucket.is_open());
@@ -678,5 +692,14 @@ impl<VM: VMBinding> GCWorkScheduler<VM> {
             concurrent_bucket.close();
             false
         }
+    }
+}
+
+/// Hooks for the external verification harness.
+#[cfg(feature = "mmtk_verif")]
+impl<VM: VMBinding> GCWorkScheduler<VM> {
+    /// What a spurious condition-variable wake-up looks like to parked workers.
+    pub fn verif_spurious_wakeup(&self, all: bool) {
+        self.worker_monitor.notify_work_available(all);
     }
 }
